@@ -67,6 +67,9 @@ def cases(tier, seed):
         for r in range(0, min(m, n) + 1):
             for row in range(rows):
                 out.append({"key": f"lowrank/{m}x{n}/r={r}/row={row}", "kind": "lowrank", "m": m, "n": n, "r": r, "row": row})
+        for e in (-50, 40):
+            out.append({"key": f"scaled/{m}x{n}/2^{e}", "kind": "scaled", "m": m, "n": n, "cls": "generic", "row": 0, "e": e})
+            out.append({"key": f"scaled-zero-col/{m}x{n}/2^{e}", "kind": "scaled", "m": m, "n": n, "cls": "ints", "row": 0, "e": e, "zc": 0})
     return out
 
 
@@ -80,6 +83,10 @@ def run_case(case, seed):
             A = np.zeros((m, n, 4))
         else:
             A = O.qmatmul(fill.quat(m, r, bits=2, lo=-6, hi=6), fill.quat(r, n, bits=2, lo=-6, hi=6))
+    elif case["kind"] == "scaled":
+        A = np.ldexp(base_matrix(case["cls"], m, n, fill), case["e"])
+        if "zc" in case:
+            A[:, case["zc"]] = 0.0
     else:
         A = base_matrix(case["cls"], m, n, fill)
         if case["kind"] == "mask":
